@@ -14,8 +14,11 @@ EXTENDS SmartCalc, Json, IOUtils, Sequences
 
 Rec == ndJsonDeserialize(IOEnv.TRACE)
 
-VARIABLES l, bad
-tvars == <<vars, l, bad>>
+VARIABLES l, bad, parked
+tvars == <<vars, l, bad, parked>>
+\* parked: the other calculators alive in the process, id -> [calc, sess].  A process with several calculators is the
+\* interleaving of independent copies of SmartCalc.tla: no variable is shared, a call acts on the one calculator it is
+\* made on ("switch" says which one the next calls go to) and the parked ones do not change.
 
 (***************************************************************************)
 (* Observation-aware evaluation of the lines of one call: like RunLines,    *)
@@ -73,13 +76,18 @@ FormatOf(e) ==
 Judge(ok, exp) == bad' = IF ok THEN bad ELSE IF Report(l, exp) THEN bad \cup {l} ELSE bad
 
 TInit == /\ calc = DefaultCalc /\ sess = <<>> /\ run = NoRun /\ today = 0 /\ last = [call |-> "none"]
-         /\ l = 1 /\ bad = {}
+         /\ l = 1 /\ bad = {} /\ parked = <<>>
 
 TNext ==
   /\ l <= Len(Rec)
   /\ l' = l + 1
   /\ LET e == Rec[l] IN
-       CASE e.ev = "reset" ->
+       CASE e.ev = "switch" ->
+              \* the next calls go to calculator e.to; the one used so far (e.from) is parked as it is
+              /\ e.to \in DOMAIN parked /\ e.from \notin DOMAIN parked
+              /\ calc' = parked[e.to].calc /\ sess' = parked[e.to].sess
+              /\ run' = NoRun /\ today' = today /\ last' = [call |-> "switch"] /\ bad' = bad
+         [] e.ev = "reset" ->
               \* a fresh calculator configured through the setters; the driver's day
               /\ calc' = (IF "alias" \in DOMAIN e THEN [CalcOf(e.cfg) EXCEPT !.alias = e.alias, !.codes = {e.codes[i] : i \in DOMAIN e.codes}]
                           ELSE IF "zones" \in DOMAIN e THEN [CalcOf(e.cfg) EXCEPT !.zones = e.zones]
@@ -142,7 +150,14 @@ TNext ==
                      /\ sess' = [sess EXCEPT ![e.s].env = r.env, ![e.s].fresh = FALSE]
               /\ UNCHANGED <<calc, run, today>>
 
-TSpec == TInit /\ [][TNext]_tvars
+\* a reset with "two" starts the process with a second, identically configured fresh calculator (id 2) parked
+TParked ==
+  LET e == Rec[l] IN
+  parked' = CASE e.ev = "reset"  -> (IF "two" \in DOMAIN e THEN (2 :> [calc |-> calc', sess |-> <<>>]) ELSE <<>>)
+              [] e.ev = "switch" -> [x \in (DOMAIN parked \ {e.to}) \cup {e.from} |-> IF x = e.from THEN [calc |-> calc, sess |-> sess] ELSE parked[x]]
+              [] OTHER -> parked
+
+TSpec == TInit /\ [][TNext /\ TParked]_tvars
 
 Accepted ==
   IF TLCGet("stats").diameter = Len(Rec) + 1 THEN TRUE
